@@ -4,6 +4,7 @@ import (
 	"fmt"
 	"io"
 	"net/http"
+	"sort"
 
 	"github.com/DemoHn/Zn/pkg/common"
 	"github.com/DemoHn/Zn/pkg/exec"
@@ -51,26 +52,30 @@ func buildIncomingRequestBody(req *http.Request) (runtime.Element, error) {
 	return value.NewString(string(body)), nil
 }
 
-func buildIncomingRequest(r *http.Request) (runtime.Element, error) {
-	headerDict := value.NewEmptyHashMap()
-	for k, v := range r.Header {
-		if len(v) > 0 {
-			headerDict.AppendKVPair(value.KVPair{
-				Key:   k,
-				Value: value.NewString(v[0]),
-			})
-		}
+// buildFirstValueDict - 头部/查询参数: one entry per name (its first value), names in sorted order,
+// so that the dictionary a program sees never depends on Go's map iteration order
+func buildFirstValueDict(values map[string][]string) *value.HashMap {
+	keys := make([]string, 0, len(values))
+	for k := range values {
+		keys = append(keys, k)
 	}
+	sort.Strings(keys)
 
-	qsDict := value.NewEmptyHashMap()
-	for k, v := range r.URL.Query() {
-		if len(v) > 0 {
-			qsDict.AppendKVPair(value.KVPair{
+	dict := value.NewEmptyHashMap()
+	for _, k := range keys {
+		if v := values[k]; len(v) > 0 {
+			dict.AppendKVPair(value.KVPair{
 				Key:   k,
 				Value: value.NewString(v[0]),
 			})
 		}
 	}
+	return dict
+}
+
+func buildIncomingRequest(r *http.Request) (runtime.Element, error) {
+	headerDict := buildFirstValueDict(r.Header)
+	qsDict := buildFirstValueDict(r.URL.Query())
 
 	body, err := buildIncomingRequestBody(r)
 	if err != nil {
@@ -126,9 +131,11 @@ func sendHTTPResponse(result runtime.Element, err error, w http.ResponseWriter) 
 					contentStr = jsonStr.String()
 				}
 
-				// write to response directly
-				for k, v := range respHeader.(*value.HashMap).GetValue() {
-					w.Header().Add(k, v.String())
+				// write to response directly (in key order: names differing only in case
+				// are merged by net/http, so the order of Add() calls is visible)
+				respHeaderDict := respHeader.(*value.HashMap)
+				for _, k := range respHeaderDict.GetKeyOrder() {
+					w.Header().Add(k, respHeaderDict.GetValue()[k].String())
 				}
 				w.WriteHeader(int(statusCode.(*value.Number).GetValue()))
 				w.Write([]byte(contentStr))
